@@ -189,6 +189,39 @@ def check_keyboard(ctx, rep, tier):
             else:
                 rep.ob('isolation', 1)
 
+    def integrity(eng, lf, init, name):
+        """The stages change only THROUGH the stage calls: before every stage call each stage holds what the previous
+        stage call (or the caller) left there, and at the end likewise - no direct writes by the Keyboard glue."""
+        S = _St(lf.doms)
+        cur = list(eng.deep(init, S)[3])
+        bad = None
+        for c in lf.calls:
+            hb = c['heap_before'].get(('H', 'self'))
+            hb = eng.deep(hb, S) if hb is not None else None
+            if hb is None or hb[0] != 'adt':
+                bad = 'the Keyboard value could not be followed up to the call at %s' % c['sp']
+                break
+            for i in (i_ps2, i_ss, i_ed):
+                if hb[3][i] != cur[i]:
+                    bad = 'the %s is written directly before the stage call at %s' % (stage_name[i], c['sp'])
+                    break
+            if bad:
+                break
+            for cell, pth, new in c.get('havoc_after', []):
+                if cell == ('H', 'self') and len(pth) == 1 and pth[0][0] == 'f' and pth[0][1] in (i_ps2, i_ss, i_ed):
+                    cur[pth[0][1]] = eng.deep(new, S)
+                elif cell == ('H', 'self'):
+                    bad = 'a stage call receives a mutable reference to %s instead of to one whole stage' % (list(pth),)
+        if bad is None:
+            fin = lf.cells[('H', 'self')]
+            for i in (i_ps2, i_ss, i_ed):
+                if fin[3][i] != cur[i]:
+                    bad = 'the %s is written directly after the last stage call' % stage_name[i]
+                    break
+        rep.ob('stages change only through their own calls', 1, 0 if bad else 1)
+        if bad:
+            rep.finding('C18 %s writes-a-stage-directly' % name, 'Keyboard::%s: %s; %s' % (name, bad, leaf_where(lf)))
+
     def call_is(c, callee, argchecks):
         if (c['resolved'] or c['callee']) != callee:
             return 'calls %s where %s is expected' % (c['resolved'] or c['callee_inst'], callee)
@@ -254,6 +287,7 @@ def check_keyboard(ctx, rep, tier):
                 why = 'does not return the scancode decoder\'s result unchanged (%s)' % term_str(lf.ret)
         wiring('add_byte', why is None, why or '', lf)
         untouched(eng, lf, init, [i_ps2, i_ed], 'add_byte', '')
+        integrity(eng, lf, init, 'add_byte')
     # ---- add_word ----------------------------------------------------------
     f, eng, leaves, init = run('add_word')
     kinds = set()
@@ -289,6 +323,7 @@ def check_keyboard(ctx, rep, tier):
                 else:
                     why = 'does not distinguish accepted from rejected frames'
         wiring('add_word', why is None, why or '', lf)
+        integrity(eng, lf, init, 'add_word')
     wiring('add_word', kinds == {'err', 'ok'}, 'accepted/rejected paths found: %s' % sorted(kinds), None)
     # ---- add_bit -----------------------------------------------------------
     f, eng, leaves, init = run('add_bit')
@@ -338,6 +373,7 @@ def check_keyboard(ctx, rep, tier):
                 else:
                     why = 'does not distinguish framing errors from progress'
         wiring('add_bit', why is None, why or '', lf)
+        integrity(eng, lf, init, 'add_bit')
     wiring('add_bit', kinds == {'err', 'none', 'some'}, 'paths found: %s' % sorted(kinds), None)
     # ---- single forwarding methods -----------------------------------------
     for name, callee, args, touched, returns_call in (
@@ -365,6 +401,7 @@ def check_keyboard(ctx, rep, tier):
                     why = 'does not return the stage\'s result unchanged'
             wiring(name, why is None, why or '', lf)
             untouched(eng, lf, init, touched, name, '')
+            integrity(eng, lf, init, name)
     # ---- the stages themselves cannot reach beyond their own state ----------
     statics = [s['path'] for s in ctx.facts.get('statics', []) if s.get('mutable') or not s.get('freeze', False)]
     unsafe_fns = [f['path'] for f in ctx.facts['fns'] if f['unsafe']]
